@@ -793,6 +793,20 @@ class WorkflowConductor(object):
         # Get task context for evaluating the expression in delay and count.
         in_ctx = self.get_task_context(in_ctx_idxs)
 
+        # If there is a failure while evaluating the expression(s) in the
+        # retry spec, log the error, disable the retry, and fail the workflow.
+        try:
+            self._evaluate_retry_in_task_state(task_state_entry, in_ctx)
+        except Exception as e:
+            task_state_entry["retry"]["count"] = 0
+            self.log_error(e, task_id=task_id, route=task_state_entry["route"])
+
+            if self.get_workflow_status() not in statuses.COMPLETED_STATUSES:
+                self.request_workflow_status(statuses.FAILED)
+
+    def _evaluate_retry_in_task_state(self, task_state_entry, in_ctx):
+        task_id = task_state_entry["id"]
+
         # Evaluate the retry delay value.
         if "delay" in task_state_entry["retry"] and isinstance(
             task_state_entry["retry"]["delay"], str
@@ -953,9 +967,18 @@ class WorkflowConductor(object):
             # the state machine has determined the status for the task execution. If the task
             # is completed, get the task result and context which is required to evaluate the
             # the condition if a retry for the task is required.
-            if self.get_workflow_status() in statuses.ACTIVE_STATUSES and self._evaluate_task_retry(
-                task_state_entry, current_ctx
-            ):
+            # If there is a failure while evaluating the retry condition, log the
+            # error, do not retry the task, and fail the workflow.
+            try:
+                task_retry = self.get_workflow_status() in statuses.ACTIVE_STATUSES and (
+                    self._evaluate_task_retry(task_state_entry, current_ctx)
+                )
+            except Exception as e:
+                task_retry = False
+                self.log_error(e, task_id=task_id, route=route)
+                self.request_workflow_status(statuses.FAILED)
+
+            if task_retry:
                 return self.update_task_state(task_id, route, events.TaskRetryEvent())
 
         # Evaluate task transitions if task is completed and status change is not processed.
